@@ -69,6 +69,14 @@ fn gen_engine_rules(r: &mut Rng) -> Vec<String> {
             _ => {}
         }
     }
+    // csp rules scoped by initiator site (indexed under the site, not under a URL token)
+    for (host, _) in PAGES.iter() {
+        match r.below(5) {
+            0 => rules.push(format!("$csp=worker-src 'none',domain={}", host)),
+            1 => rules.push(format!("||{}^$csp=script-src 'self',domain={}|other.org", host, host)),
+            _ => {}
+        }
+    }
     rules.push("##div[data-generic-ad]".to_string());
     rules.push("##.generic-only > span".to_string());
     r.shuffle(&mut rules);
@@ -85,6 +93,10 @@ fn gen_queries(r: &mut Rng, rules: &[String], n: usize) -> Vec<Q> {
                 Q::Cos(format!("https://{}/p", PAGES[k % PAGES.len()].0))
             } else if r.chance(1, 5) {
                 Q::Cos(format!("https://{}/p", r.pick(PAGES).0))
+            } else if r.chance(1, 6) {
+                // a document or frame loaded by its own site
+                let h = r.pick(PAGES).0;
+                Q::Net(format!("https://{}/p", h), format!("https://{}/", h), r.ps(&["document", "subdocument"]))
             } else {
                 let q = gen_request(r, rules);
                 Q::Net(q.url, q.source, q.rtype)
